@@ -1,8 +1,10 @@
 """C08 - no privilege escalation through power-level events: whenever the real Allowed() accepts a
-power-levels event of the Auth_gen.tla pl families, NoEsc (written from the property statement) holds.
+power-levels event, NoEsc (written from the property statement) holds - on every 0/1/2-key variation of the
+Auth_gen.tla pl families (spec -> code) and on recorded random edits (code -> spec, Auth_trace.tla).
 TLC also checks the lemma AcceptedImpliesNoEsc on the specification's own rules."""
 from vlib import auth
 
 
 def run(ctx):
     auth.run_families(ctx, "c08", auth.FAMILIES_PL)
+    auth.record_and_validate(ctx, 4000 if ctx.tier == "quick" else 60000)
